@@ -281,6 +281,11 @@ fn main() {
     });
     sink.merge(s2);
 
+    for style in [1u8, 3, 4] {
+        let k = vcommon::en::with_fill_style(style, cat::known_extensions);
+        let sx = par_run(run.threads, k.len(), |i, sink| check_single(&k[i].buf, sink));
+        sink.merge(sx);
+    }
     // (2b) inner lists with many elements (255 / 256 / 257 / 1000 / 4000 names, protocols, filters)
     let many = cat::extensions_many();
     let s2b = par_run(run.threads, many.len(), |i, sink| {
